@@ -226,7 +226,8 @@ func (r *reader) read() (m Message, err error) {
 
 	//fmt.Println("expectChunk", r.expectChunk)
 
-	if r.expectChunk {
+	// skip all chunks of unknown type until a track chunk is entered
+	for r.expectChunk && r.error == nil {
 		r.readChunk()
 	}
 
